@@ -14,6 +14,42 @@ CHECKS = {
         note="Trusted: the crash model of docs/design.md (sync durability, byte-granular tearing, powersafe overwrite), the in-memory backend standing in for a file system, the reference model in harness/src/model.rs. Windows larger than exhaustive_w and tear patterns are sampled.",
         design="5/C01",
     ),
+
+    "C04": dict(
+        category="exploration",
+        technique="runtime monitoring: reference-model oracle (BTreeMap ordered by the key type) over generated operation sequences and threshold sweeps, with an independent file decoder at every sync",
+        text="Random sequences of every table operation named in the property over 10 key types x 2 value types, 1-8 transactions with aborts, non-durable commits and reopen; every return value and a full forward+backward scan after every transaction are compared with a sorted map; the same sequence is replayed under several page/region/cache configurations; threshold sweeps walk leaf sizes across page/3, page/2, page, 2*page byte by byte. Held-on-what-was-generated, not universal.",
+        note="Trusted: the order-preserving model encodings of harness/src/typed.rs (cross-checked by C15), std BTreeMap. Values stop at 5 pages.",
+        design="5/C04",
+    ),
+    "C09": dict(
+        category="exploration",
+        technique="runtime monitoring: reference-model oracle (BTreeMap<K,BTreeSet<V>>) over generated multimap sequences, with an independent file decoder at every sync",
+        text="Random insert/remove/remove_all/get/range/len sequences over (u64|&str) keys x (u64|&[u8]|&str) values with 1..3000 values per key, grow/shrink runs that move one key across the inline/subtree boundary one value at a time, values up to more than a page, commit/abort/reopen/delete; every result compared with the model; the decoder checks subtree checksums and pair counts at every sync.",
+        note="Trusted: the model; value sets are sampled. Keys per table <= 80.",
+        design="5/C09",
+    ),
+    "C10": dict(
+        category="exploration",
+        technique="runtime monitoring: independent decoder of the documented file format applied to the durable bytes at every completed sync_data of three workload families",
+        text="An in-memory backend hands the durable image, at every completed sync_data, to a decoder that shares no code with redb and checks every rule in the property statement (key order with its own comparators, routing keys, uniform depth, stored counts, no page referenced twice, every XXH3-128 checksum from the slot down, savepoint roots). Workloads: mixed histories with all system tables populated, typed tables over 10 key types, multimaps with inline and subtree values; thorough cross-checks XXH3 between two independent crates.",
+        note="Trusted: harness/src/fmt.rs (written from docs/design.md plus record layouts read from the source), xxhash-rust. User-defined key types are not generated.",
+        design="5/C10",
+    ),
+    "C14": dict(
+        category="exploration",
+        technique="runtime monitoring: shadow-bitmap oracle over the real BuddyAllocator / region allocator driven through cfg(redb_verif) wrappers",
+        text="Every region capacity 1..160 with sampled (quick) or all (thorough) initial sizes, hundreds of random alloc/alloc_lowest/free/record_alloc/resize/reload steps each; every answer is judged against a shadow bitmap (in range, disjoint, refusal only when no aligned free block exists, merged order maximal, counts, serialized bytes decoded independently, can-allocate == block-exists for every order after every few steps). Region level: lowest region with a suitable block must be used and the file may grow only when none has one.",
+        note="Trusted: the shadow bitmap; shrinking resize only issued when the tail is free (the caller contract). Operation sequences are sampled.",
+        design="5/C14",
+    ),
+    "C15": dict(
+        category="exploration",
+        technique="runtime monitoring: direct oracle on the public Key/Value trait functions over exhaustive boundary pools and random batches",
+        text="For 27 built-in key types: all ordered pairs of a boundary pool (exhaustive for bool/u8/i8) checked for compare == native order, round trip, and separator validity (a <= s < b, len(s) <= len(a), canonical encoding); triples check that every key <= a does not sort above s and every key >= b does; random batches with engineered prefixes. Exhaustive only on the bounded pools.",
+        note="Trusted: Rust's Ord on the native values. f32/f64/uuid/chrono types are not part of the baseline configuration.",
+        design="5/C15",
+    ),
 }
 
 REASONS_NOT_YET = "check not built yet in this revision of /verif (runtime-monitoring design exists in DESIGN.md section 5)"
